@@ -165,42 +165,54 @@ func (t *termRun) blockingAttachments() []string {
 func init() {
 	register("C09", "fault_enumeration", func(r *ev.Rec) {
 		bound, steps := 1, 30
+		// environment events may also happen in the middle of a reconcile (before any of its calls); in the thorough tier
+		// (two deviations) only together with nothing else, i.e. in a separate one-deviation exploration
+		type passT struct {
+			bound      int
+			interleave bool
+		}
+		passes := []passT{{1, true}}
 		if r.Tier == "thorough" {
 			bound, steps = 2, 30
+			passes = []passT{{2, false}, {1, true}}
 		}
 		r.Rule = fmt.Sprintf("%d termination scenarios (pods drainable / do-not-disrupt / PDB-blocked / stuck terminating / static / tolerating, volume attachments of drainable and undrainable pods, slow detach, pods that use their whole grace period, TGP none/60s/300s, registered or not, node NotReady, Node or NodeClaim deleted first) are driven for %d steps through the real node-termination controller, NodeClaim lifecycle controller (finalize) and eviction queue. "+
-			"The default history is a fair cycle of all enabled reconciles, then the environment's progress events (pod finished terminating, volume detached, instance terminated), then clock +6s; every history with <=%d deviations is explored, a deviation being any other enabled reconcile/event inserted (incl. clock jumps, node NotReady, instance vanishing, PDB flip, user deleting the Node, controller restart) or a failed API/provider call (reads included). "+
+			"The default history is a fair cycle of all enabled reconciles, then the environment's progress events (pod finished terminating, volume detached, instance terminated), then clock +6s; every history with <=%d deviations is explored, a deviation being any other enabled reconcile/event inserted, an environment event happening in the MIDDLE of a reconcile (before any one of its calls; in the thorough tier as a separate one-deviation pass) (incl. clock jumps, node NotReady, instance vanishing, PDB flip, user deleting the Node, controller restart) or a failed API/provider call (reads included). "+
 			"Oracle at the instant of every finalizer-removing write. non-trivial = distinct (scenario, history)", len(termScenarios), steps, bound)
-		r.Assumptions = []string{"interleaving is at reconcile granularity (a reconcile runs to completion)", "a Node whose NodeClaim object no longer exists is outside the statement"}
+		r.Assumptions = []string{"controllers do not preempt each other inside a reconcile; the ENVIRONMENT may act before any API / provider call of a reconcile", "a Node whose NodeClaim object no longer exists is outside the statement"}
 		enum.RunEveryShard(r, int64(len(termScenarios)), func(i int64, l *ev.Local) {
 			sc := termScenarios[i]
-			ex := &explore.Explorer{Bound: bound, MaxExecs: 400000, Stop: r.Expired, Shard: r.Shard, NShards: r.Shards}
-			ex.Exec = func(run *explore.Run) {
-				l.Mute = run.Replica
-				t := buildTerm(sc)
-				t.run(run, steps, func(c *world.Call) bool { return true }, c09After)
-				l.Eval()
-				l.Trace()
-				l.Nontrivial(sc.name + "/" + hist(t))
-				w := t.w
-				ncGone, nodeGone := w.GetNodeClaim(t.nc.Name) == nil, w.GetNode("n1") == nil
-				l.Outcome(fmt.Sprintf("nodeclaim-gone=%v node-gone=%v", ncGone, nodeGone))
-				if ncGone && t.nc.Status.ProviderID != "" && w.CP.Instance(t.nc.Status.ProviderID) != nil {
-					t.viol = append(t.viol, c01Violation{"instance leaked", "NodeClaim is gone but the provider still has its instance"})
+			for _, pass := range passes {
+				bound, interleave := pass.bound, pass.interleave
+				ex := &explore.Explorer{Bound: bound, MaxExecs: 400000, Stop: r.Expired, Shard: r.Shard, NShards: r.Shards}
+				ex.Exec = func(run *explore.Run) {
+					l.Mute = run.Replica
+					t := buildTerm(sc)
+					t.interleave = interleave
+					t.run(run, steps, func(c *world.Call) bool { return true }, c09After)
+					l.Eval()
+					l.Trace()
+					l.Nontrivial(sc.name + "/" + hist(t))
+					w := t.w
+					ncGone, nodeGone := w.GetNodeClaim(t.nc.Name) == nil, w.GetNode("n1") == nil
+					l.Outcome(fmt.Sprintf("nodeclaim-gone=%v node-gone=%v", ncGone, nodeGone))
+					if ncGone && t.nc.Status.ProviderID != "" && w.CP.Instance(t.nc.Status.ProviderID) != nil {
+						t.viol = append(t.viol, c01Violation{"instance leaked", "NodeClaim is gone but the provider still has its instance"})
+					}
+					for _, v := range t.viol {
+						l.Violation(v.Sig, fmt.Sprintf("%s  [scenario=%s history=%v]", v.Msg, sc.name, t.history), map[string]any{"scenario": sc.name, "choices": run.Choices(), "faults": run.Plan(), "history": t.history, "calls": callStrings(w)})
+					}
+					if run.Used == bound && len(t.history)%7 == 0 {
+						l.Sample(map[string]any{"scenario": sc.name, "history": t.history, "nodeclaim_gone": ncGone, "node_gone": nodeGone})
+					}
 				}
-				for _, v := range t.viol {
-					l.Violation(v.Sig, fmt.Sprintf("%s  [scenario=%s history=%v]", v.Msg, sc.name, t.history), map[string]any{"scenario": sc.name, "choices": run.Choices(), "faults": run.Plan(), "history": t.history, "calls": callStrings(w)})
+				ex.Explore()
+				noteDiverged(l, ex, "prefix")
+				l.Transitions += int64(ex.Points)
+				if ex.Capped {
+					l.Outcome("exploration-capped")
+					r.Exhaustive = false
 				}
-				if run.Used == bound && len(t.history)%7 == 0 {
-					l.Sample(map[string]any{"scenario": sc.name, "history": t.history, "nodeclaim_gone": ncGone, "node_gone": nodeGone})
-				}
-			}
-			ex.Explore()
-			noteDiverged(l, ex, "prefix")
-			l.Transitions += int64(ex.Points)
-			if ex.Capped {
-				l.Outcome("exploration-capped")
-				r.Exhaustive = false
 			}
 		})
 	})
